@@ -250,8 +250,28 @@ func parallel(obls []*Obligation, workers int, f func(*Obligation)) {
 	wg.Wait()
 }
 
+// streamVerdicts (verify -stream): print each obligation's verdict as soon as it is final.
+var streamVerdicts bool
+var streamMu sync.Mutex
+
+func streamOut(o *Obligation, phase string) {
+	if !streamVerdicts {
+		return
+	}
+	streamMu.Lock()
+	fmt.Printf("  .. %-8s %s  [%s %.2fs %s]\n", o.Verdict, o.Name, o.Solver, o.Time, phase)
+	streamMu.Unlock()
+}
+
 func dischargeAll(obls []*Obligation, timeoutS int, cross bool, workers int) {
-	parallel(obls, workers, func(o *Obligation) { dischargePrimary(o, timeoutS) })
+	parallel(obls, workers, func(o *Obligation) {
+		dischargePrimary(o, timeoutS)
+		if o.Verdict == "unsat" || o.Verdict == "sat" {
+			streamOut(o, "primary")
+		} else {
+			streamOut(o, "primary, will be retried")
+		}
+	})
 	var rest []*Obligation
 	for _, o := range obls {
 		if o.Class != "vacuity" && o.Verdict != "unsat" && o.Verdict != "sat" {
@@ -265,6 +285,7 @@ func dischargeAll(obls []*Obligation, timeoutS int, cross bool, workers int) {
 		o.Verdict, o.Model, o.Output = "", "", ""
 		dischargeHedged(o, timeoutS)
 		o.Time += t
+		streamOut(o, "retry")
 	})
 	if cross {
 		parallel(obls, 8, func(o *Obligation) { crossCheck(o, timeoutS) })
